@@ -20,6 +20,31 @@ class J:
     def __init__(s,n): s.n=n
     def __repr__(s): return 'J%r'%(s.n,)
 """ + "".join(f"    def __i{n}__(s,o): return J(('{n}',s.n,o))\n" for n in DUNDERS) + """
+class NI:
+    'in-place methods that decline: Python falls back to the binary operator'
+    def __init__(s,n): s.n=n
+    def __repr__(s): return 'NI%r'%(s.n,)
+""" + "".join(f"    def __i{n}__(s,o): return NotImplemented\n    def __{n}__(s,o): return NI(('{n}',s.n,o))\n" for n in DUNDERS) + """
+class PX:
+    'a proxy: every attribute exists on the instance (hasattr is always true), operators are looked up on the type'
+    def __init__(s,n): s.n=n
+    def __repr__(s): return 'PX%r'%(s.n,)
+    def __getattr__(s,a): return lambda *x: 'proxied-' + a
+""" + "".join(f"    def __{n}__(s,o): return PX(('{n}',s.n,o))\n" for n in DUNDERS) + """
+class OB:
+    'no operators at all'
+    def __repr__(s): return 'OB'
+class RR:
+    'only reflected operators'
+    def __init__(s,n): s.n=n
+    def __repr__(s): return 'RR%r'%(s.n,)
+""" + "".join(f"    def __r{n}__(s,o): return RR(('r{n}',s.n,o))\n" for n in DUNDERS) + """
+class IA:
+    'an in-place method stored on the instance is not used by the statement'
+    def __init__(s,n):
+        s.n=n
+""" + "".join(f"        s.__i{n}__ = lambda o: 'instance-attribute'\n" for n in DUNDERS) + """    def __repr__(s): return 'IA%r'%(s.n,)
+""" + "".join(f"    def __{n}__(s,o): return IA(('{n}',s.n,o))\n" for n in DUNDERS) + """
 class M:
     'a container indexed by anything: records every key it is read / written with'
     def __init__(s): s.d = {}; s.log = []
@@ -28,7 +53,8 @@ class M:
 """
 
 OPERANDS = {'int': ('7', '2'), 'float': ('7.5', '2.0'), 'str': ("'ab'", "'c'"), 'list': ('[1,2]', '[3]'), 'tuple': ('(1,2)', '(3,)'),
-            'set': ('{1,2}', '{2,3}'), 'dict': ("{'a':1}", "{'b':2}"), 'inplace': ("I(1)", "2"), 'noinplace': ("N(1)", "2"), 'inplace-new': ("J(1)", "2")}
+            'set': ('{1,2}', '{2,3}'), 'dict': ("{'a':1}", "{'b':2}"), 'inplace': ("I(1)", "2"), 'noinplace': ("N(1)", "2"), 'inplace-new': ("J(1)", "2"),
+            'inplace-declines': ("NI(1)", "2"), 'proxy-getattr': ("PX(1)", "2"), 'reflected-only': ("OB()", "RR(2)"), 'instance-attr-inplace': ("IA(1)", "2")}
 TARGETS = {'name': ("x = {a}\nal = x\n", "x {op}= {b}\n", "L(x, al, x is al)\n"),
            'attr': ("class O: pass\no=O()\no.f = {a}\nal = o.f\n", "o.f {op}= {b}\n", "L(o.f, al, o.f is al)\n"),
            'sub': ("d=[{a}]\nal = d[0]\n", "d[0] {op}= {b}\n", "L(d[0], al, d[0] is al)\n"),
@@ -210,10 +236,10 @@ def main(argv):
         rule="destructuring: 1-4 targets, star at every position, tuple and list brackets, source lengths min..min+3, 7 source kinds (list, tuple, str, range, "
              "generator, dict view, one-shot iterator), random nested patterns of depth 2-3 with starred sub-patterns, attribute/subscript/slice targets with every "
              "combination of missing bounds, chained mixed targets; augmented: 13 operators x {name, attribute, subscript, slice, open slice} x 10 operand types "
-             "(incl. classes with in-place methods returning self / a new object / none) x {global, local, nonlocal, class} (quick: one third, rotating with the seed); "
+             "(incl. classes with in-place methods returning self / a new object / NotImplemented / none, proxies whose every attribute exists, reflected-only operands, in-place methods stored on the instance) x {global, local, nonlocal, class} (quick: one third, rotating with the seed); "
              "cases whose original raises are skipped; distinct by (config, source)",
         extra={"R_failures": len(failing), "K_disagreements": len(k_bad)},
-        assumptions=["the object protocol of the in-place operators (hasattr / __iop__ / fallback) is CPython's; an in-place method returning NotImplemented is outside the generated operands"])
+        assumptions=["the functions of the standard operator module (iadd, ...) perform the statement's protocol (type-level lookup, NotImplemented, fallback, reflected form): checked by the operand classes that decline, proxy attributes, define only reflected operators or carry instance attributes"])
 
 
 def replay(ck, ol):
